@@ -38,6 +38,13 @@ Definition box_spec (tu : Z) (st : R * R) (o : top (T := R)) : R * R :=
   | TSetAttr n v => if pname_beq n nT0 then (v, snd st) else if pname_beq n nTw then (fst st, v) else st
   | TMove dt u => (fst st + shift tu dt u, snd st)
   end.
+(* the same including the raw window-edge properties t_start / t_stop *)
+Definition box_spec_full (tu : Z) (st : R * R) (o : top (T := R)) : R * R :=
+  match o with
+  | TSetAttr nTstart v => ((v + (fst st + snd st / 2)) / 2, (fst st + snd st / 2) - v)
+  | TSetAttr nTstop v => (((fst st - snd st / 2) + v) / 2, v - (fst st - snd st / 2))
+  | _ => box_spec tu st o
+  end.
 Definition gauss_spec (tu : Z) (st : R * R) (o : top (T := R)) : R * R :=
   match o with
   | TSetParams pd => (pick pd nT0 (fst st), pick pd nSigma (snd st))
